@@ -55,6 +55,9 @@ type c01Delivery struct {
 	Events [][]interface{} `json:"events"`
 	Fwd    []c01Msg        `json:"fwd"`
 	Final  int             `json:"final"` // 0 unsettled, 1 acked, 2 nacked
+	// the context of the delivered copy was live at handler entry; when it is not, the
+	// (context-aware) handler fails with the context's error whatever the script says
+	CtxLive bool `json:"ctx_live"`
 
 	mu   sync.Mutex
 	copy *message.Message
@@ -101,6 +104,8 @@ type c01Case struct {
 	srcOpen  int
 	lastEv   time.Time
 	lastTick int64 // value of c01Ticks at the last event
+	deadCtx  int   // deliveries that arrived with a dead context
+	aborted  bool  // too many of them: the fault never stops, the case is given up
 	done     chan struct{}
 	wg       sync.WaitGroup
 }
@@ -200,12 +205,28 @@ func (c *c01Case) fan(stage, lin int) int {
 
 func (c *c01Case) handler(stage int) message.HandlerFunc {
 	return func(msg *message.Message) ([]*message.Message, error) {
+		// every handler is context-aware, as handlers with I/O or a Timeout middleware are: with
+		// an already-done context it fails with the context's error
+		ctxErr := msg.Context().Err()
 		c.mu.Lock()
+		if c.aborted {
+			c.mu.Unlock()
+			return nil, errors.New("case given up")
+		}
+		if ctxErr != nil {
+			c.deadCtx++
+			if c.deadCtx >= 25 {
+				c.aborted = true
+			}
+		}
 		call := c.calls[stage]
 		c.calls[stage]++
-		d := &c01Delivery{Seq: len(c.Log), Stage: stage, Call: call, copy: msg, Fwd: []c01Msg{}}
+		d := &c01Delivery{Seq: len(c.Log), Stage: stage, Call: call, copy: msg, Fwd: []c01Msg{}, CtxLive: ctxErr == nil}
 		if call < len(c.Script[stage]) {
 			d.Fault = c.Script[stage][call]
+		}
+		if ctxErr != nil {
+			d.Fault = c01Fault{Kind: 1}
 		}
 		c.Log = append(c.Log, d)
 		c.touch()
@@ -233,6 +254,9 @@ func (c *c01Case) handler(stage int) message.HandlerFunc {
 			case <-c.done:
 			}
 		}()
+		if ctxErr != nil {
+			return nil, fmt.Errorf("context-aware work: %w", ctxErr)
+		}
 		fan := c.fan(stage, d.Msg.Lin%100000)
 		var outs []*message.Message
 		if fan == c01Passthrough {
@@ -539,6 +563,13 @@ func c01Run(rt *hookrt.Runtime, c *c01Case, stall time.Duration) {
 				break
 			}
 			continue
+		}
+		c.mu.Lock()
+		ab := c.aborted
+		c.mu.Unlock()
+		if ab {
+			c.note(fmt.Sprintf("given up: %d deliveries arrived with an already-done context and failed for that reason; the fault never stops", 25))
+			break
 		}
 		if idle > stall {
 			c.mu.Lock()
